@@ -305,6 +305,21 @@ function familyQ (tier, opts = {}) {
     // with an argument that is itself instrumented: also in the positions where the call is the ROOT of its statement
     if (args.some((x) => x === 's.trim()' || x === 'a + f()')) for (const st of ['stmt', 'return', 'const', 'if_test']) leaves.push(mkLeaf('Q', { op, opkind: 'proto', stmtctx: st }))
   }
+  // generated holder paths: base link{0..2} over bases that run code or not and links that are static or not
+  // (whether the path may be read after the this argument is decided link by link AND by its base); each with a
+  // this argument and a first argument that log
+  // (paths that are static all the way down to an identifier are the stated exemption: when reading one throws,
+  // the this argument has or has not been evaluated yet, which is exactly the order the exemption leaves open -
+  // those are covered by the holders above, whose reads succeed)
+  const bases = ['g()', '(o)', 'new X', '(0, o)', 'o?.q']
+  const links = tier === 'thorough' ? ['.prototype', '.q', '[k]', '[0]', '[g()]', "['q']"] : ['.q', '[k]', '[0]', '[g()]']
+  const paths = []
+  for (const b of bases) { paths.push(b); for (const l0 of links) { paths.push(b + l0); for (const l1 of links) paths.push(b + l0 + l1) } }
+  for (const h of paths) for (const fn of ['call', 'apply']) for (const args of (tier === 'thorough' ? ['f(), a', 'f(), h()', 's.trim(), a', 'a, f()'] : ['f(), a'])) {
+    stats.states++; stats.transitions++
+    const al = fn === 'apply' ? args.replace(/, (.*)$/, ', [$1]') : args
+    leaves.push(mkLeaf('Q', { op: `${h}.concat.${fn}(${al})`, opkind: 'proto' }))
+  }
   return { leaves, stats: addStats(stats, r.stats) }
 }
 
@@ -342,7 +357,7 @@ function familyR (tier, opts = {}) {
 
 // N: `+` chains. Every sequence of 2..n operands over an operand alphabet, left-nested and right-nested, and as the
 // right side of `+=`
-const N_OPERANDS = ['a', "'l'", '`t`', '1', 'f()', 'o.p', '-a', 'a * 2', 'i++', "('m' + 'n')", '(b + f())', 'null', '`t${b}`']
+const N_OPERANDS = ['a', "'l'", '`t`', '1', 'f()', 'o.p', '-a', 'a * 2', 'i++', "('m' + 'n')", '(b + f())', 'null', '`t${b}`', 'undefined']
 function familyN (tier, opts = {}) {
   const n = tier === 'thorough' ? 4 : 3
   const leaves = []
